@@ -5,8 +5,11 @@ package props
 import (
 	"bytes"
 	"compress/flate"
+	"compress/gzip"
+	"compress/zlib"
 	"encoding/base64"
 	"fmt"
+	"io"
 	"runtime"
 	"strings"
 	"sync"
@@ -30,6 +33,7 @@ type C14Case struct {
 	Placement string `json:"placement"` // comment | text | attribute | after-root
 	Pad       string `json:"pad_byte"`
 	Valid     bool   `json:"valid_wrapper"`
+	Container string `json:"container,omitempty"` // "" raw DEFLATE (what the binding prescribes) | zlib (RFC 1950) | gzip
 }
 
 var (
@@ -39,7 +43,7 @@ var (
 
 // c14Payload returns the DEFLATE stream of a request whose padding inflates to sizeMiB, produced without materialising the inflated text.
 func c14Payload(c C14Case, spec world.Spec, now time.Time) []byte {
-	key := fmt.Sprintf("%s/%d/%s/%s/%v", c.Endpoint[:3], c.SizeMiB, c.Placement, c.Pad, c.Valid)
+	key := fmt.Sprintf("%s/%d/%s/%s/%v/%s", c.Endpoint[:3], c.SizeMiB, c.Placement, c.Pad, c.Valid, c.Container)
 	c14Mu.Lock()
 	defer c14Mu.Unlock()
 	if b, ok := c14Cache[key]; ok {
@@ -84,7 +88,15 @@ func c14Payload(c C14Case, spec world.Spec, now time.Time) []byte {
 	}
 	pre, post, _ := strings.Cut(x, marker)
 	var buf bytes.Buffer
-	w, _ := flate.NewWriter(&buf, flate.BestSpeed)
+	var w io.WriteCloser
+	switch c.Container {
+	case "zlib":
+		w, _ = zlib.NewWriterLevel(&buf, zlib.BestSpeed)
+	case "gzip":
+		w, _ = gzip.NewWriterLevel(&buf, gzip.BestSpeed)
+	default:
+		w, _ = flate.NewWriter(&buf, flate.BestSpeed)
+	}
 	w.Write([]byte(pre))
 	chunk := bytes.Repeat([]byte(c.Pad), 1<<20)
 	for i := 0; i < c.SizeMiB; i++ {
@@ -108,6 +120,7 @@ func genC14Case(t *rapid.T) C14Case {
 		Placement: rapid.SampledFrom([]string{"comment", "text", "attribute", "after-root"}).Draw(t, "placement"),
 		Pad:       rapid.SampledFrom([]string{"A", " ", "A"}).Draw(t, "pad"),
 		Valid:     rapid.IntRange(0, 3).Draw(t, "valid") != 0,
+		Container: rapid.SampledFrom([]string{"", "", "", "zlib", "gzip"}).Draw(t, "container"),
 	}
 }
 
@@ -173,7 +186,7 @@ func TestC14(t *testing.T) {
 		if alloc > 64<<20 {
 			bucket = ">64MiB"
 		}
-		col.Case(nt, ev.Fingerprint(c.Endpoint, c.Placement, c.SizeMiB, c.Valid), []string{"endpoint/" + c.Endpoint, "placement/" + c.Placement, fmt.Sprintf("size/%04dMiB", c.SizeMiB), fmt.Sprintf("accepted=%v", accepted), "alloc" + bucket}, func() any {
+		col.Case(nt, ev.Fingerprint(c.Endpoint, c.Placement, c.SizeMiB, c.Valid, c.Container), []string{"endpoint/" + c.Endpoint, "placement/" + c.Placement, fmt.Sprintf("size/%04dMiB", c.SizeMiB), fmt.Sprintf("accepted=%v", accepted), "alloc" + bucket}, func() any {
 			return map[string]any{"case": c, "compressed_bytes": compressed, "allocated_mib": alloc >> 20, "accepted": accepted}
 		})
 		return vs
